@@ -25,7 +25,7 @@ func init() {
 		Run: runNegativeCount,
 	})
 	register(&Rule{
-		ID: "C11.compare-by-identity", Prop: "C11", Also: []string{"C15", "C12", "C04"}, Floor: 30, Controls: 1,
+		ID: "C11.compare-by-identity", Prop: "C11", Also: []string{"C15", "C12", "C04", "C17", "C07"}, Floor: 30, Controls: 1,
 		Doc: "Go == / != between two cty.Value or two cty.Type operands is used only against a package-level singleton (NilVal, DynamicVal, True, False, the primitive types, the dynamic pseudo-type, NilType): comparing two arbitrary values or types with == is pointer identity posing as equality and panics at run time on uncomparable payloads (object, tuple, map types)",
 		Run: runCompareByIdentity,
 	})
